@@ -817,7 +817,9 @@ class ClientSession:
                                     "body. Use bytes, a seekable file-like object, "
                                     "or set allow_redirects=False."
                                 )
-                            data = req._body
+                            # A request without a body stays without one.
+                            if req._body is not req._EMPTY_BODY:
+                                data = req._body
 
                         # reading from correct redirection
                         # response is forbidden
